@@ -49,6 +49,8 @@ Check C16_init_keeps_index_order : forall start now insts assets,
 Check C16_oracle_accepts_model : forall (scp : Q) (ps : list pos) (t : Z),
   sheet_ok scp ps (obs_of_sheet (tsg_generate (tsg_run ps (tsg_init t)))) = true.
 
+Check C16_oracle_sound : forall c : case, wf_case c = true -> corr_b c = true -> prop_b c = true.
+
 (* the definitions the statements rest on, pinned by evaluation *)
 Definition qq (n : Z) (d : positive) : Qc := Q2Qc (n # d).
 Check eq_refl : this (pnl_return (mkPos (qq 50 1) (qq 100 1) (qq 5 1) 0)) = (1 # 10)%Q.
